@@ -23,10 +23,16 @@ nonzero result lies in that range.
 The PRSS key of the single party is derived from the arguments of every case (the fixed-point truncations inside the float operations round
 probabilistically), so that a run and its replay are deterministic.
 
-Two classes of inputs are kept in natives of their own, so that the listed findings about them have one witness key each:
-  zero_operand  every case in which exactly one operand is zero (all operations, all types)
-  near_pow2     constructor arguments within a few units in the last place of a power of two
-The other natives contain no single-zero-operand case and no such constructor argument.
+Three classes of failing inputs are kept in natives of their own, so that the findings about them have one witness key each (the check
+functions return ('class', key, message) for exactly these classes, every other failure is an unclassified violation):
+  zero_operand  every case in which one or both operands are zero (all operations, all types); classes
+                  'zero-operand-with-exponent-above-the-other-operand'  (+, -, comparisons with exactly one zero operand whose held exponent
+                      exceeds the exponent of the nonzero operand)
+                  'sum-2^1023-renormalised-to-exponent-1024'  (x + 0 = +2^1023 for an 11-bit exponent: OverflowError in _output)
+  near_pow2     constructor arguments within a few units in the last place of a power of two; class
+                  'float-log2-lands-on-the-wrong-side-of-an-integer'  (AssertionError / OverflowError of SecureFloat.__init__)
+The other natives contain no single-zero-operand case, no sum +2^1023 and no such constructor argument.
+A (significand, exponent) operand counts as a "float input" only if its value is exactly a Python float (matters for s = 53 below 2^-1022).
 """
 import sys, math, itertools, hashlib, random
 from fractions import Fraction
@@ -160,12 +166,22 @@ def _erange(tname):
     return -2 ** (e - 1), 2 ** (e - 1) - 1
 
 
+def _is_double(q):
+    """the rational q is exactly a Python float (the property is about float inputs: a 53-bit significand at an exponent below -1022
+    is not one)"""
+    try:
+        return Fraction(float(q)) == q
+    except OverflowError:
+        return False
+
+
 def _in_domain(tname, *vals_or_encs):
     lo, hi = _erange(tname)
     for v in vals_or_encs:
         if isinstance(v, tuple):
             s = _se(tname)[0]
             if v[0] == 'r' and not (v[1] == 0 or 2 ** (s - 2) <= abs(v[1]) <= 2 ** (s - 1)): return False
+            if v[0] == 'r' and not _is_double(_val(tname, v)): return False
             if v[0] != 'r' and (isinstance(v[1], float) and not math.isfinite(v[1])): return False
             if _val(tname, v) != 0 and not lo <= _exp(tname, v) <= hi: return False
         elif v != 0 and not lo <= ceil_log2(v) <= hi:
@@ -240,6 +256,7 @@ def ck_fixed(op):
     def ck(args, res, exc):
         tname, a, b = args
         if (_val(tname, a) == 0) != (_val(tname, b) == 0): return 'generator error: single zero operand outside the zero_operand native'
+        if _top_sum(tname, op, a, b): return 'generator error: sum +2^1023 outside the zero_operand native'
         return judge(tname, op, a, b, res, exc)
     return ck
 
@@ -248,10 +265,19 @@ def ck_mixed(args, res, exc):
     tname, op, a, b = args
     if (_val(tname, a) == 0) != (_val(tname, b) == 0): return 'generator error: single zero operand outside the zero_operand native'
     if a[0] == 'p' and b[0] == 'p': return 'generator error: two public operands'
+    if _top_sum(tname, op, a, b): return 'generator error: sum +2^1023 outside the zero_operand native'
     return judge(tname, op, a, b, res, exc)
 
 
 ZERO_CLASS = 'zero-operand-with-exponent-above-the-other-operand'
+TOP_CLASS = 'sum-2^1023-renormalised-to-exponent-1024'
+
+
+def _top_sum(tname, op, a, b):
+    """x + y or x - y is exactly +2^1023 for a type with an 11-bit exponent: __add__ renormalises a positive sum with significand 1.0 to
+    0.5 * 2^1024, and SecureFloat._output evaluates s * 2**1024 with the Python int 2**1024 (OverflowError).  Kept out of all natives
+    but zero_operand (x + 0, x - 0, 0 + x with x = 2^1023), where it is a class of its own."""
+    return op in ('add', 'sub') and _erange(tname)[1] >= 1023 and exact_result(tname, op, a, b) == Fraction(2) ** _erange(tname)[1]
 
 
 def ck_zero(args, res, exc):
@@ -263,6 +289,9 @@ def ck_zero(args, res, exc):
     msg = judge(tname, op, a, b, res, exc)
     if msg is None or msg.startswith('generator error'): return msg
     x, y = _val(tname, a), _val(tname, b)
+    if isinstance(exc, OverflowError) and _top_sum(tname, op, a, b):
+        return ('class', TOP_CLASS, msg + ' (the exact result +2^1023 is a float whose exponent fits; __add__ returns it as 0.5 * 2^1024 and _output computes '
+                's * 2**e with the Python int 2**1024)')
     if op in ('add', 'sub') + CMPS and (x == 0) != (y == 0) and not exc:
         z, nz = (a, b) if x == 0 else (b, a)
         if _exp(tname, z) > _exp(tname, nz):
@@ -296,14 +325,14 @@ POW2_CLASS = 'float-log2-lands-on-the-wrong-side-of-an-integer'
 
 
 def ck_pow2(args, res, exc):
-    """Constructor arguments next to powers of two.  Listed finding, delimited exactly: SecureFloat.__init__ raises AssertionError and
-    math.ceil(math.log(|x|, 2)) differs from the exact ceil(log2|x|)."""
+    """Constructor arguments next to powers of two.  Listed finding, delimited exactly: SecureFloat.__init__ raises AssertionError (or, for
+    x = 2.0**1023 only, OverflowError in x / 2**1024) and math.ceil(math.log(|x|, 2)) differs from the exact ceil(log2|x|)."""
     tname, a, mode = args
     if not _in_domain(tname, a): return 'generator error: operand outside the exponent range of the type'
-    if isinstance(exc, AssertionError) and log2_misrounded(a[1]):
+    if isinstance(exc, (AssertionError, OverflowError)) and log2_misrounded(a[1]):
         e = math.ceil(math.log(abs(a[1]), 2))
-        return ('class', POW2_CLASS, f'secflt({a[1]!r}) raises AssertionError: math.ceil(math.log(|x|, 2)) = {e} but ceil(log2|x|) = {ceil_log2(a[1])}, '
-                f'so the significand x / 2**{e} = {a[1] / 2.0 ** e!r} is outside [0.5, 1]')
+        return ('class', POW2_CLASS, f'secflt({a[1]!r}) raises {type(exc).__name__}: math.ceil(math.log(|x|, 2)) = {e} but ceil(log2|x|) = {ceil_log2(a[1])}, '
+                f'so the significand x / 2**{e} is outside [0.5, 1]')
     if exc: return f'unexpected {type(exc).__name__} on an input of the domain'
     x, u = _val(tname, a), _u(tname)
     m = _num(res)
@@ -418,7 +447,7 @@ def gen_sampled(tname, op, n_quick, n_thorough, seed):
                 if x is not None and not log2_misrounded(x): a = ('f', x)
                 if y is not None and not log2_misrounded(y): b = ('f', y)
             if not _in_domain(tname, a, b): return
-            if op in ARITH and not _in_domain(tname, exact_result(tname, op, a, b)): return
+            if op in ARITH and (not _in_domain(tname, exact_result(tname, op, a, b)) or _top_sum(tname, op, a, b)): return
             out.append((tname, a, b))
 
         mid = lambda: rnd.randint(lo // 2, hi // 2)
@@ -517,6 +546,7 @@ def gen_io(tname, enumerated):
         vals += [('f', 0), ('f', 0.0), ('f', -0.0), ('r', 0, 0), ('r', 0, 3), ('r', 0, -2)]
         ints = [1, -1, 2, -2, 3, 5, -7, 10, 100, 255, -1000, 12345, 32767, 2 ** 15, -2 ** 15, 2 ** 15 - 1, 2 ** 20 + 1, 10 ** 9, 2 ** 62 + 12345, 10 ** 30, 2 ** 100 + 1, -3 ** 70, 2 ** 127]
         vals += [('f', x) for x in ints if _in_domain(tname, ('f', x)) and not log2_misrounded(x)]
+        vals = [a for a in vals if _in_domain(tname, a)]          # drops 53-bit significands below the normal range of a double
         for i, a in enumerate(vals):
             yield (tname, a, 'out')
             if i % 7 == 0: yield (tname, a, 'input')
@@ -565,6 +595,7 @@ def gen_zero(tier):
         for ex in exps:
             ks = _Kedge(s)[::Q(tier, 3, 1)] + [_rk(rnd, s) for _ in range(Q(tier, 1, 4))]
             for k in ks:
+                if not _in_domain(tname, ('r', k, ex)): continue
                 nz.append(('r', k, ex))
                 x = _float_of(tname, k, ex)
                 if x is not None and not log2_misrounded(x) and rnd.random() < 0.5: nz.append(('f', x))
@@ -577,6 +608,9 @@ def gen_zero(tier):
                         if op == 'div' and _val(tname, c[3]) == 0: continue
                         if op in ARITH and not _in_domain(tname, exact_result(tname, op, c[2], c[3])): continue
                         yield c
+        top = ('r', 2 ** (s - 1), hi)                                 # 1.0 * 2^max, the largest power of two whose exponent fits
+        yield from [(tname, 'add', top, ('p', 0)), (tname, 'add', ('f', 0), top), (tname, 'sub', top, ('f', 0.0)), (tname, 'sub', ('r', -2 ** (s - 1), hi), ('p', 0)),
+                    (tname, 'mul', top, ('f', 0)), (tname, 'gt', top, ('p', 0))]
         secz = [z for z in zeros if z[0] != 'p']
         i = 0
         for a in zeros:                                               # both operands zero
@@ -592,7 +626,7 @@ def gen_pow2(tier):
     """floats 2^k and the three floats next to 2^k on either side, ints 2^k + j (|j| <= 1) for the types below; all four access paths"""
     for tname, step in (('s8e5', 1), ('s24e8', Q(tier, 3, 1)), ('s53e11', Q(tier, 23, 3))):
         lo, hi = _erange(tname)
-        for k in range(max(lo, -1021), min(hi, 1023), step):
+        for k in sorted(set(range(max(lo, -1021), min(hi, 1023), step)) | {min(hi, 1023)}):
             p = 2.0 ** k
             vs = [p]
             up = dn = p
@@ -660,10 +694,10 @@ def _mk_natives():
     out.append(Native('zero_operand', f'{SF}.__add__', call_op, ck_zero, gen_zero,
                       'types ' + ', '.join(ZERO_TYPES) + ': zero as secflt(0), secflt(0.0), secflt(-0.0), public 0 / 0.0, and (0, exponent) pairs with exponents 0, 4, -3, min, max, against '
                       'nonzero operands with boundary and random significands at ~20 exponents from min to max; all ten operators (division only with zero dividend), both '
-                      'operand orders; both operands zero in every pair of forms (quick: every 7th); quick: every 24th (s53: 48th) combination, thorough: every 6th (s53: 18th)'))
+                      'operand orders; 2^max +- 0 in every tier; both operands zero in every pair of forms (quick: every 7th); quick: every 24th (s53: 48th) combination, thorough: every 6th (s53: 18th)'))
     out.append(Native('near_pow2', f'{SF}.__init__', call_io, ck_pow2, gen_pow2,
                       'constructor + output for 2^k, the three floats above and below 2^k (both signs) and the ints 2^k-1, 2^k, 2^k+1 (2 <= k <= 200): SecFlt(s=8,e=5) every k, '
-                      'SecFlt(s=24,e=8) every 3rd (thorough every) k, SecFlt(s=53,e=11) every 23rd (3rd) k in -1021..1022'))
+                      'SecFlt(s=24,e=8) every 3rd (thorough every) k, SecFlt(s=53,e=11) every 23rd (3rd) k in -1021..1022 and k = 1023; the largest exponent of every type'))
     return out
 
 
